@@ -136,7 +136,7 @@ func main() {
 			run.Outcome(k)
 			classes[k]++
 		}
-		if f == nil && i%997 == 0 {
+		if f == nil && i%3121 == 7 {
 			run.Sample(map[string]any{"part": "A", "case": c.String(), "rtp_roundtrips": st.rtp, "rtcp_roundtrips": st.rtcp, "refused_at_index_wrap": st.refusedAtWrap})
 		}
 		mu.Unlock()
@@ -150,7 +150,7 @@ func main() {
 	run.Set("unit_outcome_classes", classes)
 
 	// ---------------- parts B and C, worker processes
-	jobs := append(wireJobs(run.Thorough()), admitJobs()...)
+	jobs := append(admitJobs(), wireJobs(run.Thorough())...)
 	anyJobs := make([]any, len(jobs))
 	for i := range jobs {
 		anyJobs[i] = jobs[i]
